@@ -351,6 +351,27 @@ func report(o *checkOpts, P *Program, reps []*oblReport, results []*FuncResult, 
 	exit := 0
 	var vacuous []string
 	var errObls []string
+	// Functions whose contract no longer fits their code (a clause names a local that does not
+	// exist, an anchored statement is gone, a callee has no contract, a construct outside the
+	// subset is reachable): nothing generated for them can be trusted either way. Their failed
+	// obligations are reported as UNDECIDED, not as violations (exit 2 unless something else fails).
+	badFuncs := map[string]bool{}
+	for _, r := range results {
+		for _, e := range r.Errs {
+			// an anchored assert whose statement is gone cannot be placed; that loses the assert,
+			// it does not disturb the other obligations of the function
+			if strings.Contains(e, ": assert [") && strings.Contains(e, "no source line") {
+				continue
+			}
+			badFuncs[r.Func] = true
+		}
+	}
+	for _, rp := range reps {
+		if rp.Status == "error" || rp.Status == "vacuous" {
+			badFuncs[rp.Func] = true
+		}
+	}
+	var undecided []string
 	for _, rp := range reps {
 		solverS += rp.Seconds
 		switch {
@@ -361,6 +382,8 @@ func report(o *checkOpts, P *Program, reps []*oblReport, results []*FuncResult, 
 			vacuous = append(vacuous, rp.Name)
 		case rp.Status == "error":
 			errObls = append(errObls, rp.Name+": "+rp.res.Output)
+		case badFuncs[rp.Func]:
+			undecided = append(undecided, fmt.Sprintf("UNDECIDED property=%s obligation=%s status=%s (the contract of %s does not fit the code any more, see the ENGINE-ERROR lines; not reported as a violation)", o.prop, rp.Name, rp.Status, rp.Func))
 		default:
 			if e := kf.match(o.prop, rp.Name); e != nil && e.witnessStillFails(o.repo, P) {
 				known = append(known, fmt.Sprintf("KNOWN-FINDING: property=%s %s (obligation %s; witness %s replayed and still fails)", o.prop, e.What, rp.Name, e.Witness))
@@ -381,6 +404,9 @@ func report(o *checkOpts, P *Program, reps []*oblReport, results []*FuncResult, 
 	for _, v := range violations {
 		fmt.Println(v)
 		exit = 1
+	}
+	for _, u := range undecided {
+		fmt.Println(u)
 	}
 	if o.verbose {
 		for _, rp := range reps {
